@@ -125,6 +125,9 @@ class Ctx:
         cmd = ["java", "-XX:+UseParallelGC"]
         cmd.append("-Xmx%s" % (heap or "8g"))
         cmd.append("-Xss%s" % (xss or "64m"))
+        jtmp = os.path.join(wd, "jtmp")   # TLC leaves an empty tlc-* directory per run in java.io.tmpdir
+        os.makedirs(jtmp, exist_ok=True)
+        cmd.append("-Djava.io.tmpdir=%s" % jtmp)
         if dfs:
             cmd.append("-Dtlc2.tool.queue.IStateQueue=StateDeque")
         cmd += ["-cp", TLA_CP, "tlc2.TLC", "-workers", str(workers), "-metadir", meta,
